@@ -19,7 +19,7 @@ Fixpoint fcost (t : tree) : nat :=
   | Un _ y | Wrap y => fcost y + 2
   | Suf _ y => fcost y + 1
   | Bin _ l r => fcost l + fcost r + 2
-  | Index x a => fcost x + acost a + 1
+  | Index x a | CallV x a => fcost x + acost a + 1
   | ListE a | MapE a | Call _ a => acost a + 1
   end
 with acost (a : args) : nat :=
@@ -58,6 +58,7 @@ Proof.
   induction t; intro rest; cbn [yield app]; try exact I.
   - rewrite <- app_assoc. apply IHt.
   - rewrite <- app_assoc. apply IHt1.
+  - rewrite <- app_assoc. apply IHt.
   - rewrite <- app_assoc. apply IHt.
 Qed.
 
@@ -237,6 +238,16 @@ Proof.
     destruct Sh as [Sha Shaa]. cbn [wf] in W.
     cbn [yield app]. rewrite <- app_assoc. cbn [app]. simpl expr.
     rewrite (proj1 IHa S0 (TRP :: rest) W Shaa Sha eq_refl F') by lia. apply St. lia.
+  - (* CallV *)
+    intros x IHx a IHa p rest res f0 W Sh L R St F HF. cbn [fcost] in HF.
+    destruct W as [q [Q [Wx [Rx Wa]]]]. destruct Sh as [Shx [Sha Shaa]].
+    destruct L as [[q' [Q' C]] Lx]. rewrite Q in Q'. inversion Q'; subst q'.
+    cbn [yield]. rewrite <- app_assoc. cbn [app]. rewrite <- app_assoc. cbn [app].
+    apply (IHx p (TLP :: yield_args a ++ TRP :: rest) res (f0 + acost a + 1) Wx Shx Lx).
+    + intros q0 H0. cbn [tokrank] in H0. rewrite Q in H0. inversion H0; subst. exact Rx.
+    + intros f Hf. destruct f as [|f]; [lia|]. simpl loop. rewrite Q, C.
+      rewrite (proj1 IHa S0 (TRP :: rest) Wa Shaa Sha eq_refl f) by lia. apply St. lia.
+    + lia.
   - (* ANil *)
     split.
     + intros st rest W Sh Shp Cl F HF. cbn [shape_from] in Shp. subst st.
